@@ -4020,7 +4020,7 @@ async fn run_rtp_direct_loop(
                     });
                     #[cfg(rustrtc_verif)]
                     inner.vprobe("pre:direct.ice_failed");
-                    let _ = inner.peer_state.send(PeerConnectionState::Failed);
+                    inner.publish_peer_state(PeerConnectionState::Failed);
                     #[cfg(rustrtc_verif)]
                     inner.vemit("pub", "direct.ice_failed");
                 }
@@ -4192,7 +4192,7 @@ async fn run_ice_dtls_loop(
                     });
                     #[cfg(rustrtc_verif)]
                     inner.vprobe("pre:iceloop.ice_failed");
-                    let _ = inner.peer_state.send(PeerConnectionState::Failed);
+                    inner.publish_peer_state(PeerConnectionState::Failed);
                     #[cfg(rustrtc_verif)]
                     inner.vemit("pub", "iceloop.ice_failed");
                 }
@@ -4288,7 +4288,7 @@ async fn handle_connected_state_no_dtls(
                 });
                 #[cfg(rustrtc_verif)]
                 inner.vprobe("pre:nodtls.start_failed");
-                let _ = inner.peer_state.send(PeerConnectionState::Failed);
+                inner.publish_peer_state(PeerConnectionState::Failed);
                 #[cfg(rustrtc_verif)]
                 inner.vemit("pub", "nodtls.start_failed");
                 return false;
@@ -4296,7 +4296,7 @@ async fn handle_connected_state_no_dtls(
             Ok(mut rtcp_loop) => {
                 #[cfg(rustrtc_verif)]
                 inner.vprobe("pre:nodtls.connected");
-                let _ = inner.peer_state.send(PeerConnectionState::Connected);
+                inner.publish_peer_state(PeerConnectionState::Connected);
                 #[cfg(rustrtc_verif)]
                 inner.vemit("pub", "nodtls.connected");
                 let grace = inner.config.ice_disconnect_grace;
@@ -4326,7 +4326,7 @@ async fn handle_connected_state_no_dtls(
                                     if let Some(inner) = inner_weak.upgrade() {
                                         #[cfg(rustrtc_verif)]
                                         inner.vprobe("pre:nodtls.ice_disc");
-                                        let _ = inner.peer_state.send(PeerConnectionState::Disconnected);
+                                        inner.publish_peer_state(PeerConnectionState::Disconnected);
                                         #[cfg(rustrtc_verif)]
                                         inner.vemit("pub", "nodtls.ice_disc");
                                     }
@@ -4347,7 +4347,7 @@ async fn handle_connected_state_no_dtls(
                                     if let Some(inner) = inner_weak.upgrade() {
                                         #[cfg(rustrtc_verif)]
                                         inner.vprobe("pre:nodtls.ice_rec");
-                                        let _ = inner.peer_state.send(PeerConnectionState::Connected);
+                                        inner.publish_peer_state(PeerConnectionState::Connected);
                                         #[cfg(rustrtc_verif)]
                                         inner.vemit("pub", "nodtls.ice_rec");
                                     }
@@ -4369,7 +4369,7 @@ async fn handle_connected_state_no_dtls(
                                     });
                                     #[cfg(rustrtc_verif)]
                                     inner.vprobe("pre:nodtls.grace");
-                                    let _ = inner.peer_state.send(PeerConnectionState::Disconnected);
+                                    inner.publish_peer_state(PeerConnectionState::Disconnected);
                                     #[cfg(rustrtc_verif)]
                                     inner.vemit("pub", "nodtls.grace");
                                     if let Some(sctp) = inner.sctp_transport.lock().as_ref() {
@@ -4420,7 +4420,7 @@ async fn handle_connected_state(
                         });
                         #[cfg(rustrtc_verif)]
                         inner.vprobe("pre:conn.start_failed");
-                        let _ = inner.peer_state.send(PeerConnectionState::Failed);
+                        inner.publish_peer_state(PeerConnectionState::Failed);
                         #[cfg(rustrtc_verif)]
                         inner.vemit("pub", "conn.start_failed");
                         return false;
@@ -4428,7 +4428,7 @@ async fn handle_connected_state(
                     Ok(mut rtcp_loop) => {
                         #[cfg(rustrtc_verif)]
                         inner.vprobe("pre:conn.connected");
-                        let _ = inner.peer_state.send(PeerConnectionState::Connected);
+                        inner.publish_peer_state(PeerConnectionState::Connected);
                         #[cfg(rustrtc_verif)]
                         inner.vemit("pub", "conn.connected");
 
@@ -4459,7 +4459,7 @@ async fn handle_connected_state(
                                             crate::transports::ice::IceTransportState::Disconnected => {
                                                 #[cfg(rustrtc_verif)]
                                                 inner.vprobe("pre:conn.ice_disc");
-                                                let _ = inner.peer_state.send(PeerConnectionState::Disconnected);
+                                                inner.publish_peer_state(PeerConnectionState::Disconnected);
                                                 #[cfg(rustrtc_verif)]
                                                 inner.vemit("pub", "conn.ice_disc");
                                                 let _ = ice_connection_state_tx.send(IceConnectionState::Disconnected);
@@ -4479,7 +4479,7 @@ async fn handle_connected_state(
                                                 disconnect_epoch += 1;
                                                 #[cfg(rustrtc_verif)]
                                                 inner.vprobe("pre:conn.ice_rec");
-                                                let _ = inner.peer_state.send(PeerConnectionState::Connected);
+                                                inner.publish_peer_state(PeerConnectionState::Connected);
                                                 #[cfg(rustrtc_verif)]
                                                 inner.vemit("pub", "conn.ice_rec");
                                                 let _ = ice_connection_state_tx.send(IceConnectionState::Connected);
@@ -4503,7 +4503,7 @@ async fn handle_connected_state(
                                                 });
                                                 #[cfg(rustrtc_verif)]
                                                 inner.vprobe("pre:conn.dtls_end");
-                                                let _ = inner.peer_state.send(PeerConnectionState::Disconnected);
+                                                inner.publish_peer_state(PeerConnectionState::Disconnected);
                                                 #[cfg(rustrtc_verif)]
                                                 inner.vemit("pub", "conn.dtls_end");
                                                 let _ = ice_connection_state_tx.send(IceConnectionState::Disconnected);
@@ -4525,7 +4525,7 @@ async fn handle_connected_state(
                                             });
                                             #[cfg(rustrtc_verif)]
                                             inner.vprobe("pre:conn.grace");
-                                            let _ = inner.peer_state.send(PeerConnectionState::Disconnected);
+                                            inner.publish_peer_state(PeerConnectionState::Disconnected);
                                             #[cfg(rustrtc_verif)]
                                             inner.vemit("pub", "conn.grace");
                                             let _ = ice_connection_state_tx.send(IceConnectionState::Disconnected);
@@ -4560,7 +4560,7 @@ async fn handle_connected_state(
                                             crate::transports::ice::IceTransportState::Disconnected => {
                                                 #[cfg(rustrtc_verif)]
                                                 inner.vprobe("pre:connx.ice_disc");
-                                                let _ = inner.peer_state.send(PeerConnectionState::Disconnected);
+                                                inner.publish_peer_state(PeerConnectionState::Disconnected);
                                                 #[cfg(rustrtc_verif)]
                                                 inner.vemit("pub", "connx.ice_disc");
                                                 let _ = ice_connection_state_tx.send(IceConnectionState::Disconnected);
@@ -4580,7 +4580,7 @@ async fn handle_connected_state(
                                                 disconnect_epoch += 1;
                                                 #[cfg(rustrtc_verif)]
                                                 inner.vprobe("pre:connx.ice_rec");
-                                                let _ = inner.peer_state.send(PeerConnectionState::Connected);
+                                                inner.publish_peer_state(PeerConnectionState::Connected);
                                                 #[cfg(rustrtc_verif)]
                                                 inner.vemit("pub", "connx.ice_rec");
                                                 let _ = ice_connection_state_tx.send(IceConnectionState::Connected);
@@ -4601,7 +4601,7 @@ async fn handle_connected_state(
                                             });
                                             #[cfg(rustrtc_verif)]
                                             inner.vprobe("pre:connx.grace");
-                                            let _ = inner.peer_state.send(PeerConnectionState::Disconnected);
+                                            inner.publish_peer_state(PeerConnectionState::Disconnected);
                                             #[cfg(rustrtc_verif)]
                                             inner.vemit("pub", "connx.grace");
                                             let _ = ice_connection_state_tx.send(IceConnectionState::Disconnected);
@@ -4659,6 +4659,22 @@ fn is_ice_failed_or_closed(state: crate::transports::ice::IceTransportState) -> 
 }
 
 impl PeerConnectionInner {
+    /// Publish a peer state from one of the background loops. `Closed` is
+    /// final: once `close()` / `Drop` has published it, a loop that was still
+    /// running (a DTLS start that fails because of the close, a transport that
+    /// reports the teardown) must not replace it with `Failed`, `Connected`
+    /// or `Disconnected`.
+    fn publish_peer_state(&self, state: PeerConnectionState) {
+        self.peer_state.send_if_modified(|cur| {
+            if *cur == PeerConnectionState::Closed {
+                false
+            } else {
+                *cur = state;
+                true
+            }
+        });
+    }
+
     /// Track a spawned task so it can be aborted on close. Only meant for
     /// fire-and-forget tasks whose lifetime should be bounded by the connection.
     fn track_task(&self, handle: tokio::task::JoinHandle<()>) {
